@@ -23,6 +23,7 @@ import (
 	"encoding/json"
 	"fmt"
 	"os"
+	"runtime"
 	"sort"
 	"strings"
 	"sync"
@@ -386,7 +387,137 @@ func c17Worker() {
 			}
 		}
 	}
+	if msg := c17Stress(3, 3, 160); msg != "" && out.RawBad == "" {
+		out.RawBad = msg
+	}
 	json.NewEncoder(os.Stdout).Encode(out)
+}
+
+// c17Stress: the listing under fire.  `writers` goroutines register fresh names
+// of their own, one after the other, and publish how far they got (an atomic
+// counter, stored after the registration returned); `listers` goroutines list
+// in a tight loop for as long as any writer is at work (alternating
+// RegisteredDecorationNames and auto.ListStyles), reading the counters BEFORE
+// each call.  Every single listing is judged on the spot: strictly sorted
+// (hence duplicate-free, but for ListStyles' four names), only names somebody
+// registers, every name that was there when the pass began and every name whose
+// registration had returned before the call; and a lookup of such a name gives
+// the decoration it was registered with.  After the join nothing is missing.
+// (This pass uses atomics, so it is a functional check; the unstamped passes
+// above are the ones the race detector sees undisturbed.)
+func c17Stress(writers, listers, per int) string {
+	if runtime.GOMAXPROCS(0) < 4 {
+		defer runtime.GOMAXPROCS(runtime.GOMAXPROCS(4))
+	}
+	before := decoration.RegisteredDecorationNames()
+	idx := make(map[string]int32, len(before)+writers*per)
+	for i, n := range before {
+		idx[n] = int32(i)
+	}
+	B := len(before)
+	fresh := make([][]string, writers)
+	decOf := func(k, j int) int { return 1 + (k+j)%(len(regPalette)-1) }
+	for k := range fresh {
+		for j := 0; j < per; j++ {
+			// sorted positions all over the listing
+			n := fmt.Sprintf("%c~stress%d-%03d", "am0zZ-u"[(j*5+k)%7], k, j)
+			fresh[k] = append(fresh[k], n)
+			idx[n] = int32(B + k*per + j)
+		}
+	}
+	progress := make([]int32, writers) // number of registrations that have returned
+	var active int32 = int32(writers)
+	var first atomic.Value
+	fail := func(format string, a ...interface{}) {
+		first.CompareAndSwap(nil, "listing under fire: "+fmt.Sprintf(format, a...))
+	}
+	start := make(chan struct{})
+	var wg sync.WaitGroup
+	for k := 0; k < writers; k++ {
+		wg.Add(1)
+		go func(k int) {
+			defer wg.Done()
+			<-start
+			for j, n := range fresh[k] {
+				decoration.RegisterDecorationName(n, regPalette[decOf(k, j)])
+				atomic.StoreInt32(&progress[k], int32(j+1))
+			}
+			atomic.AddInt32(&active, -1)
+		}(k)
+	}
+	var listings int64
+	for l := 0; l < listers; l++ {
+		wg.Add(1)
+		go func(l int) {
+			defer wg.Done()
+			seen := make([]uint32, B+writers*per)
+			done := make([]int32, writers)
+			<-start
+			for round := uint32(1); round < 20000; round++ {
+				last := atomic.LoadInt32(&active) == 0 // one more listing after the writers are through
+				for k := range done {
+					done[k] = atomic.LoadInt32(&progress[k])
+				}
+				styles := (int(round)+l)%3 == 0
+				var got []string
+				if styles {
+					got = auto.ListStyles()
+				} else {
+					got = decoration.RegisteredDecorationNames()
+				}
+				atomic.AddInt64(&listings, 1)
+				for i, n := range got {
+					four := styles && (n == "csv" || n == "html" || n == "json" || n == "markdown")
+					if i > 0 && (got[i-1] > n || (got[i-1] == n && !four)) {
+						fail("listing %d of lister %d is not strictly sorted at %q", round, l, n)
+					}
+					if id, ok := idx[n]; ok {
+						seen[id] = round
+					} else if !four {
+						fail("listing %d of lister %d has %q, which nobody registers", round, l, n)
+					}
+				}
+				for i := 0; i < B; i++ {
+					if seen[i] != round {
+						fail("listing %d of lister %d (%d names) lacks %q, registered before the pass began", round, l, len(got), before[i])
+					}
+				}
+				for k := range done {
+					for j := 0; j < int(done[k]); j++ {
+						if seen[B+k*per+j] != round {
+							fail("listing %d of lister %d (%d names) lacks %q, whose registration had returned before the call", round, l, len(got), fresh[k][j])
+						}
+					}
+					if j := int(done[k]) - 1; j >= 0 {
+						if d := decID(decoration.Named(fresh[k][j])); d != decOf(k, j) {
+							fail("Named(%q) returned decoration %d after its registration with %d had returned", fresh[k][j], d, decOf(k, j))
+						}
+					}
+				}
+				if len(got) > 0 {
+					got[0] = "\x00scribbled" // a listing is the caller's
+				}
+				if last || first.Load() != nil {
+					return
+				}
+			}
+		}(l)
+	}
+	close(start)
+	wg.Wait()
+	final := map[string]bool{}
+	for _, n := range decoration.RegisteredDecorationNames() {
+		final[n] = true
+	}
+	for n := range idx {
+		if !final[n] {
+			fail("after the join the listing lacks %q", n)
+		}
+	}
+	if v := first.Load(); v != nil {
+		return fmt.Sprintf("%s (%d listings judged)", v.(string), atomic.LoadInt64(&listings))
+	}
+	return ""
 }
 
 func init() {
